@@ -1234,15 +1234,32 @@ public:
         if (tx == ty)
           return;
 
+        // The constraint must reach the base domain while x and y still
+        // have different base variables: after the unification below
+        // both are renamed to the same one (the value of one of them
+        // overwrites the other) and cst becomes trivially true.
+        _impl += rename_linear_cst(cst);
+
         // congruence closure to compute equivalence classes
         term::congruence_closure_solver<ttbl_t> solver(_ttbl);
         std::vector<std::pair<term_id_t, term_id_t>> eqs = {
             std::make_pair(tx, ty)};
+        // The solver only knows the terms that occur in its equations:
+        // get_members() of any other term is empty and build_dag_term
+        // replaces it by a fresh variable, i.e. the definitions of all
+        // other variables (z = mul(y,-2)) were forgotten.
+        for (int t = 0; t < _ttbl.size(); ++t) {
+          if (_ttbl.get_term_ptr(t)) {
+            eqs.push_back(std::make_pair((term_id_t)t, (term_id_t)t));
+          }
+        }
         solver.run(eqs);
 
         std::vector<int> stack;
         std::map<int, term_id_t> cache;
         dom_t x_impl(_impl);
+        // rebind_var() below may free old terms and erase their entries
+        term_map_t old_term_map(_term_map);
         std::vector<dom_var_t> out_varnames;
         // new map from variable to an acyclic term
         // and also renaming of the base domain
@@ -1259,6 +1276,23 @@ public:
           x_impl.assign(vt, vx);
 
           rebind_var(v, t_new);
+        }
+        // Sub-terms that are not bound to a program variable (constants,
+        // arguments of functors) must keep their value in the base
+        // domain, otherwise z = mul(y,-2) degenerates to mul(y, top).
+        for (auto &kv : cache) {
+          dom_var_t vt = domvar_of_term(kv.second);
+          if (std::find(out_varnames.begin(), out_varnames.end(), vt) !=
+              out_varnames.end())
+            continue;
+          for (term_id_t m : solver.get_members(kv.first)) {
+            auto it = old_term_map.find(m);
+            if (it != old_term_map.end()) {
+              x_impl.assign(vt, it->second);
+              out_varnames.push_back(vt);
+              break;
+            }
+          }
         }
         x_impl.project(out_varnames);
         std::swap(_impl, x_impl);
